@@ -14,6 +14,7 @@ import (
 	"strings"
 	"time"
 
+	"github.com/buchgr/bazel-remote/v2/cache"
 	"github.com/buchgr/bazel-remote/v2/utils/verifhook/vsched"
 )
 
@@ -361,6 +362,11 @@ func VfForget(cc Cache, key string) {
 	c.mu.Lock()
 	c.lru.RemoveKey(key)
 	c.mu.Unlock()
+}
+
+// VfFileLocation exposes the file naming function.
+func VfFileLocation(cc Cache, kind cache.EntryKind, legacy bool, hash string, size int64, random string) string {
+	return vfUnwrap(cc).FileLocation(kind, legacy, hash, size, random)
 }
 
 // VfSeedTempfiles makes temp file suffixes reproducible.
